@@ -600,7 +600,7 @@ struct Gen {
     answered: Vec<u64>,
     /// ids a cancel was injected for (never re-used: the cancel may be read just before the new request)
     cancelled: Vec<u64>,
-    forced: Option<Op>,
+    forced: std::collections::VecDeque<Op>,
     v2_done: bool,
     /// the clock stays below this (ns): earliest deadline of a request a duplicate was injected for
     pin: u128,
@@ -609,8 +609,21 @@ struct Gen {
 }
 
 fn gen_op(rng: &mut Rng, sv: &Server, g: &mut Gen, p: &Params) -> Op {
-    if let Some(op) = g.forced.take() {
+    if let Some(op) = g.forced.pop_front() {
         return op;
+    }
+    // a burst: dozens of requests readable in one poll (refusal budgets, batch limits)
+    if crate::cli::GEN_BURST.load(std::sync::atomic::Ordering::SeqCst) != 0 && g.nreq < 200 && rng.chance(1, 10) {
+        let n = 30 + rng.below(40);
+        for _ in 0..n {
+            g.nreq += 1;
+            let id = g.nreq * 3;
+            g.ids.push(id);
+            let d = g.now + 3_600_000_000_000 + (g.nreq % 16) * 2_000_000;
+            g.forced.push_back(Op::InjectReq { id, d: d as u128, tid: 200 + g.nreq as u128, span: 8000 + g.nreq, sampled: false, body: 600 + g.nreq });
+        }
+        g.forced.push_back(Op::PollServer);
+        return g.forced.pop_front().unwrap();
     }
     if crate::cli::GEN_V2.load(std::sync::atomic::Ordering::SeqCst) != 0 && !g.v2_done {
         g.v2_done = true;
@@ -725,7 +738,7 @@ fn gen_op(rng: &mut Rng, sv: &Server, g: &mut Gen, p: &Params) -> Op {
         10 => {
             let f = Op::Fault(*rng.pick(&["ready", "send", "flush", "next"]));
             if crate::cli::GEN_V2.load(std::sync::atomic::Ordering::SeqCst) != 0 && !p.wo && rng.chance(1, 2) {
-                g.forced = Some(f);
+                g.forced.push_back(f);
                 Op::FaultSkip(1 + rng.below(3))
             } else {
                 f
@@ -746,7 +759,7 @@ pub fn run_script(out: &mut Out, idx: u64, p: &Params, rng: &mut Rng, script: Op
     simt::take_log();
     let _sub = crate::cli::install_subscriber(p.sub);
     let mut sv = Server::new("s0", p.limit, p.resp, p.cap, p.coupled);
-    let mut g = Gen { now: 0, nreq: 0, ids: vec![], deadlines: vec![], answered: vec![], cancelled: vec![], forced: None, v2_done: false, pin: u128::MAX, reused: vec![] };
+    let mut g = Gen { now: 0, nreq: 0, ids: vec![], deadlines: vec![], answered: vec![], cancelled: vec![], forced: Default::default(), v2_done: false, pin: u128::MAX, reused: vec![] };
     let mut i = 0usize;
     loop {
         let op = match script {
@@ -792,8 +805,8 @@ pub fn generate(out: &mut Out, seed: u64, scripts: u64, len: usize, wo: bool, fa
                 0 => None,
                 k => Some(k as usize - 1),
             },
-            resp: 1 + rng.below(2) as usize,
-            cap: 1 + rng.below(3) as usize,
+            resp: if crate::cli::GEN_BURST.load(std::sync::atomic::Ordering::SeqCst) != 0 { *rng.pick(&[2usize, 64]) } else { 1 + rng.below(2) as usize },
+            cap: if crate::cli::GEN_BURST.load(std::sync::atomic::Ordering::SeqCst) != 0 { *rng.pick(&[2usize, 128]) } else { 1 + rng.below(3) as usize },
             coupled: rng.chance(2, 3),
             wo,
             faults,
